@@ -447,9 +447,10 @@ func genC18sPlan(r *zsim.Rng) *c18sPlan {
 		p.Init = append(p.Init, "h"+strconv.Itoa(r.Intn(20)))
 	}
 	for s := r.Range(1, 5); s > 0; s-- {
-		ses := c18Session{End: []string{"enter", "enter", "enter", "esc", "ctrl-c"}[r.Intn(5)]}
+		ses := c18Session{End: []string{"enter", "enter", "enter", "esc", "ctrl-c", "alt-p"}[r.Intn(6)]}
 		for k := r.Intn(10); k > 0; k-- {
-			ses.Steps = append(ses.Steps, []string{"a", "b", "z", "q", "ctrl-p", "ctrl-p", "ctrl-n", "bspace"}[r.Intn(8)])
+			// alt-s: search(hx) - what is searched is not what was typed; the history records the query line
+			ses.Steps = append(ses.Steps, []string{"a", "b", "z", "q", "ctrl-p", "ctrl-p", "ctrl-n", "bspace", "alt-s"}[r.Intn(9)])
 		}
 		p.Sessions = append(p.Sessions, ses)
 	}
@@ -486,7 +487,8 @@ func runC18s(c *runCtx) {
 	}
 	for si, ses := range plan.Sessions {
 		sp := plan.sysPlan
-		sp.Args = append(append([]string{}, plan.sysPlan.Args...), "--history", path, "--history-size", strconv.Itoa(plan.Max))
+		sp.Args = append(append([]string{}, plan.sysPlan.Args...), "--history", path, "--history-size", strconv.Itoa(plan.Max),
+			"--bind", "alt-s:search(hx)", "--bind", "alt-p:print-query")
 		sp.Events = []sysEvent{{Kind: "settle"}}
 		for _, k := range ses.Steps {
 			sp.Events = append(sp.Events, sysEvent{Kind: "keys", Keys: k}, sysEvent{Kind: "settle"})
@@ -532,6 +534,7 @@ func runC18s(c *runCtx) {
 				if len(input) > 0 {
 					input = input[:len(input)-1]
 				}
+			case "alt-s":
 			default:
 				input += k
 			}
@@ -552,7 +555,7 @@ func runC18s(c *runCtx) {
 		}
 		_ = st
 		// a query is recorded iff the session ended with exit status <= 1 and the query is not empty
-		if r.code <= ExitNoMatch && input != "" && ses.End == "enter" {
+		if r.code <= ExitNoMatch && input != "" && (ses.End == "enter" || ses.End == "alt-p") {
 			E = append(append([]string{}, E...), input)
 			if len(E) > plan.Max {
 				E = E[len(E)-plan.Max:]
